@@ -197,6 +197,17 @@ def c16(tier):
             keys_gen('keys-long-simulated', 12, 'full', timeout=600, simulate=10000000, depth=13)]
 
 
+def c07(tier):
+    inv = ['LawPoolSorted', 'LawUtf8', 'LawSeparates', 'LawDocSorted', 'Emit']
+    def st(label, lo, hi, **kw):
+        return dict(kind='gen', module='Gen_KeyOrder', label=label, props='C07', constants=dict(MinKeys=lo, MaxKeys=hi), invariants=inv,
+                    check_count=False, timeout=kw.pop('timeout', 900), **kw)
+    if tier == 'quick':
+        return [st('subsets-2..5', 2, 5), st('subsets-6..9-simulated', 6, 9, timeout=8, simulate=100000, depth=14),
+                st('subsets-10..12-simulated', 10, 12, timeout=8, simulate=100000, depth=14)]
+    return [st('subsets-2..6', 2, 6, timeout=3600), st('subsets-6..12-simulated', 6, 12, timeout=300, simulate=10000000, depth=14)]
+
+
 def c02(tier):
     cn = dict(kind='tlc', module='CmpNormalize', label='cmp-normalize-terminates', constants=dict(AsCoded=False),
               invariants=['BuiltRight', 'AtMostOneSwap'], properties=['Terminates'], timeout=120, workers=1)
@@ -220,6 +231,7 @@ CHECKS = {
     'C02': dict(stages=c02, level='model_checking'),
     'C03': dict(stages=simple_sel('C03', ['LawFailsIffEmpty'], extra=[lambda: SLICES('C03'), lambda: traceB_eval(4000, 200000, 'C03', EVAL_ATTR)]), level='model_checking'),
     'C04': dict(stages=simple_sel('C04', extra=[lambda: traceB_eval(4000, 200000, 'C04', EVAL_ATTR)]), level='model_checking'),
+    'C07': dict(stages=c07, level='model_checking'),
     'C08': dict(stages=simple_sel('C08', ['LawCompose']), level='model_checking'),
     'C11': dict(stages=c11, level='model_checking'),
     'C12': dict(stages=c12, level='model_checking'),
